@@ -296,11 +296,18 @@ def h_tree(sp, L=2, alphabet=('a', 'b', ''), depth=3, values=(0, 1, 2, 3), ops=(
                 target = real_walk(m, comps)
                 if not isinstance(target, ResourceMap):
                     sp.assume(False)
-                kids = []
-                for k in sorted(node.kids):
-                    kid = target.get(k, MISSING)
-                    if kid is not MISSING:
-                        kids.append((k, kid))
+                # every node stored directly in the map right now: the sub-maps and the handles of ALL layers of
+                # the public ChainMap `handles` (a shadowed handle of a lower layer was stored in this map under
+                # that name too); every value the harness assigns is a fresh object, so none is stored elsewhere
+                kids = [(k, kid, 'sub-map') for k, kid in sorted(target.maps.items())]
+                seen_names = set()
+                for li, layer in enumerate(target.handles.maps):
+                    for k, kid in sorted(layer.items()):
+                        shadowed = k in seen_names
+                        kids.append((k, kid, 'shadowed handle (layer %d)' % li if shadowed else 'handle'))
+                        if shadowed:
+                            sp.cover('clear-with-shadowed-handle')
+                    seen_names.update(layer)
                 sp.note('(map %r).clear()' % show(comps))
                 target.clear()
                 if node.kids:
@@ -313,14 +320,17 @@ def h_tree(sp, L=2, alphabet=('a', 'b', ''), depth=3, values=(0, 1, 2, 3), ops=(
                              '%s: after clear() of map %r: maps has %d names, handles has %d names (%s)' % (
                                  when, show(comps), len(target.maps), len(target.handles),
                                  sorted(target.handles)))
-                    for a in sorted(set(alphabet) | {k for k, _ in kids}):
+                    for a in sorted(set(alphabet) | {k for k, _, _ in kids}):
                         sp.check(target.get(a, MISSING) is MISSING, 'clear-leaves-nothing',
                                  '%s: after clear() of map %r name %r is still reachable' % (
                                      when, show(comps), a))
-                    for k, kid in kids:
+                    for k, kid, what in kids:
                         sp.check(kid.parent is None, 'clear-detaches',
-                                 '%s: former child %r of cleared map %r still has parent %r' % (
-                                     when, k, show(comps), kid.parent))
+                                 '%s: former child %r (%s, %r) of cleared map %r still has parent %r' % (
+                                     when, k, what, kid, show(comps), kid.parent))
+                        sp.check(kid.key is None, 'clear-detaches',
+                                 '%s: former child %r (%s, %r) of cleared map %r still has key %r' % (
+                                     when, k, what, kid, show(comps), kid.key))
         except Exception as ex:         # noqa  (engine control flow is BaseException)
             sp.fail('op-raises', '%s: operation raised %r' % (when, ex))
         oracle(sp, m, root, alphabet, depth, clauses, when)
@@ -329,33 +339,38 @@ def h_tree(sp, L=2, alphabet=('a', 'b', ''), depth=3, values=(0, 1, 2, 3), ops=(
 
 _COVERS = ['handle-read', 'deep-handle-read', 'implicit-map', 'intermediate-over-handle', 'map-over-handle',
            'handle-over-map', 'subtree-replaced', 'layered-value', 'nest', 'clear-nonempty', 'clear-submap',
-           'set-via-submap']
+           'set-via-submap', 'clear-with-shadowed-handle']
 
 _REQ = ['handle-read', 'deep-handle-read', 'map-over-handle', 'handle-over-map', 'layered-value']
 
 HARNESSES = {
     # full oracle, sharded over the process pool
-    'tree': dict(fn=h_tree, nontrivial=_COVERS, required=_REQ + ['clear-nonempty', 'implicit-map', 'nest']),
+    'tree': dict(fn=h_tree, nontrivial=_COVERS,
+                 required=_REQ + ['clear-nonempty', 'implicit-map', 'nest', 'clear-with-shadowed-handle']),
     # the same function on a small universe with one clause family switched on, explored in-process before
     # the pool starts: each family reports its own counterexample even when another family fails too
     'focus': dict(fn=h_tree, nontrivial=_COVERS, required=['layered-value', 'handle-over-map', 'map-over-handle'],
                   split=False),
     # 'tree' with via=True (assignment through a reachable sub-map); only the vacuity requirement differs
     'via': dict(fn=h_tree, nontrivial=_COVERS,
-                required=_REQ + ['clear-nonempty', 'implicit-map', 'nest', 'set-via-submap']),
+                required=_REQ + ['clear-nonempty', 'implicit-map', 'nest', 'set-via-submap',
+                                 'clear-with-shadowed-handle']),
+    # 'focus' for the clear clause family: a map holding a shadowed same-named handle must get cleared
+    'focus-clear': dict(fn=h_tree, nontrivial=_COVERS, split=False,
+                        required=['layered-value', 'clear-nonempty', 'clear-with-shadowed-handle']),
 }
 
 _SMALL = dict(L=2, alphabet=['a', 'b'], depth=2)
 TIERS = {
     'quick': [
         ('focus', dict(_SMALL, clauses=['backlink'])),
-        ('focus', dict(_SMALL, clauses=['clear'])),
+        ('focus-clear', dict(_SMALL, clauses=['clear'])),
         ('focus', dict(_SMALL, clauses=['lookup'], ops=['set', 'nest'])),
         ('tree', dict(L=2, alphabet=['a', 'b', ''], depth=3)),
     ],
     'thorough': [
         ('focus', dict(_SMALL, clauses=['backlink'])),
-        ('focus', dict(_SMALL, clauses=['clear'])),
+        ('focus-clear', dict(_SMALL, clauses=['clear'])),
         ('focus', dict(_SMALL, clauses=['lookup'], ops=['set', 'nest'])),
         ('via', dict(L=2, alphabet=['a', 'b', ''], depth=3, via=True)),
         ('tree', dict(L=3, alphabet=['a', ''], depth=3)),
@@ -389,8 +404,9 @@ ASSUMPTIONS = [
     'every assigned value is a fresh object (the same map/handle stored at two places is outside the claim)',
     'layered handles are produced the way DirectoryResourcePopulator does it: handles.maps.insert(0, {}) on the '
     'public ChainMap, then an ordinary assignment',
-    '"detaches its former direct children" is read as parent is None for the children the names of the map '
-    'denoted before clear(); their key attribute and the fate of shadowed (not denoted) handles are not checked',
+    '"detaches its former direct children": every node stored directly in the map when clear() is called - '
+    'the sub-maps in `maps` and the handles of all layers of `handles.maps`, shadowed ones included - must have '
+    'parent None and key None afterwards',
     'back-links of nodes that were replaced and are no longer reachable are not checked',
     'the identity of implicitly created intermediate maps is not prescribed, only that they are maps with '
     'correct content and back-links',
